@@ -346,6 +346,13 @@ class WorkflowDatabaseManager:
             {"key": self.KEY_PAUSED, "value": int(schd.is_paused)},
             {"key": self.KEY_STOP_CLOCK_TIME, "value": schd.stop_clock_time},
             {"key": self.KEY_STOP_TASK, "value": schd.pool.stop_task_id},
+            {
+                "key": self.KEY_HOLD_CYCLE_POINT,
+                "value": (
+                    str(schd.pool.hold_point)
+                    if schd.pool.hold_point is not None else None
+                ),
+            },
         ])
 
         # Store raw initial cycle point in the DB.
